@@ -37,7 +37,6 @@ C07 = {
     "all:c07:dirty-buffer:SCTPCookieEcho": "SCTP chunk serialisers round the chunk up to a multiple of 4 but never write the padding bytes",
     "all:c07:dirty-buffer:SCTPSack": "SCTP chunk serialisers round the chunk up to a multiple of 4 but never write the padding bytes",
     "all:c07:dirty-buffer:SCTP*": "SCTP chunk serialisers round the chunk up to a multiple of 4 but never write the padding bytes",
-    "all:c07:ser-panic:BFD:layers/bfd.go:438": "BFD.SerializeTo indexes the buffer returned by AppendBytes(AuthHeader.Length()) at [0..2] although Length() is 0 for an authentication header of unknown type (reachable by decoding)",
 }
 
 C06 = {
@@ -47,9 +46,7 @@ C06 = {
     "DNS": "DNS: records with empty RDATA come back with a zero address (nil IP serialised as 0.0.0.0 / ::), OPT/TXT variants are re-encoded differently",
     "Dot11": "Dot11: SerializeTo always writes a 24-byte header + FCS while the decoder uses 10/16/24/30-byte headers depending on type and flags; QOS/HT control and the checksum are not written back",
     "Dot11InformationElement": "Dot11InformationElement: ID 255 (extension) elements lose the extension id on serialisation",
-    "EAP": "EAP: SerializeTo writes Length from the struct while the decoder derives TypeData from the remaining bytes; they disagree for length-4 packets with trailing bytes",
     "GTPv1U": "GTPv1U.SerializeTo hard-codes protocol type 1 (the ProtocolType field is ignored)",
-    "Geneve": "Geneve.SerializeTo never writes the Version bits",
     "RadioTap": "RadioTap: SerializeTo writes only the header fields it knows and the decoder appends a synthesised FCS to the payload; truncated flag on re-decode",
     "TLS": "TLS.SerializeTo writes only the record headers, not the record contents",
 }
